@@ -136,12 +136,21 @@ SetOK == (Has("expect") /\ cur.expect.t = "set") =>
                                   /\ \A x \in 1..Len(cur.expect.codes) : InSeq(cur.expect.codes[x], Codes)
 \* I4 on a recording: a program that a generator built well-formed (the random programs of C01) is compiled successfully
 ValidOK == (Has("expect") /\ cur.expect.t = "valid") => Rec[l].ok
+\* ... and the functions the generator wrote into the source are among the declarations the real parser delivered (a front end
+\* that silently drops text would otherwise "compile" the rest): expect.fns, compared with TRUE so that TLC evaluates the quantifiers
+DefinesOK == (Has("expect") /\ "fns" \in DOMAIN cur.expect) =>
+                ((\A x \in 1..Len(cur.expect.fns) : \E m \in 1..Len(ds) : \E i \in 1..Len(ds[m]) :
+                     ds[m][i].k = "fn" /\ ds[m][i].name = cur.expect.fns[x]) = TRUE)
+\* docs/errors.md E390 on a recording (cells of PipelineShapes.tla): more than 127 address markers in front of a reference / more
+\* than 127 chained accesses => a failure that shows E390; at most 127 => E390 is not among the diagnostics
+DepthOK == /\ (Has("expect") /\ cur.expect.t = "e390") => (~Rec[l].ok /\ InSeq(390, Codes))
+           /\ (Has("expect") /\ cur.expect.t = "no390") => ~InSeq(390, Codes)
 TOutcome == /\ Ev("outcome") /\ n > 0 /\ wait = NoWait /\ pend.t # "none"
             /\ Rec[l].ok = (pend.t = "success")
             /\ Rec[l].codes = pend.codes
             /\ ~Rec[l].ok => Rec[l].codes # <<>>                                      \* I1
             /\ Len(Rec[l].diags) = Len(Rec[l].codes)
-            /\ LexOK /\ SetOK /\ ValidOK
+            /\ LexOK /\ SetOK /\ ValidOK /\ DefinesOK /\ DepthOK
             /\ n' = 0 /\ k' = 0 /\ ds' = <<>> /\ lex' = {} /\ pend' = NoPend /\ cur' = Idle
             /\ l' = l + 1 /\ UNCHANGED wait /\ Frozen
 
